@@ -39,6 +39,9 @@ func hwoptStage(run *evid.Run, scratch string, tier string) {
 	var cs []hcase
 	for i := 0; i < n; i++ {
 		p := basmgen.Generate(rng, true, 0)
+		if i%2 == 1 {
+			p = basmgen.GenerateWide(rng, true, 0) // also addp/multp and instructions with one register in both operands
+		}
 		var in [][]uint64
 		for k := 0; k < p.ExtIn; k++ {
 			var s []uint64
